@@ -687,6 +687,10 @@ type AbacoSource struct {
 	buffersChan  chan AbacoBuffersType
 	eTrigPackets []*packets.Packet // Unprocessed packets with external trigger info
 
+	// handoffLock guards the state shared by the packet reader (readerMainLoop) and the block
+	// assembly (distributeData): eTrigPackets, nextFrameNum and the groups' frame-timing info.
+	handoffLock sync.Mutex
+
 	unwrapOpts AbacoUnwrapOptions
 	AnySource
 }
@@ -813,6 +817,8 @@ func (as *AbacoSource) Configure(config *AbacoSourceConfig) (err error) {
 
 // distributePackets sorts a slice of Abaco packets into the data queues according to the GroupIndex.
 func (as *AbacoSource) distributePackets(allpackets []*packets.Packet, now time.Time) {
+	as.handoffLock.Lock()
+	defer as.handoffLock.Unlock()
 	for _, p := range allpackets {
 		if p.IsExternalTrigger() {
 			as.eTrigPackets = append(as.eTrigPackets, p)
@@ -1184,7 +1190,11 @@ func (as *AbacoSource) distributeData(buffersMsg AbacoBuffersType) *dataBlock {
 	block.segments = make([]DataSegment, nchan)
 
 	// Here we find external triggers from the queue of relevant packets
+	as.handoffLock.Lock()
 	externalTriggers := as.extractExternalTriggers()
+	firstFrameIndex := as.nextFrameNum
+	as.nextFrameNum += FrameIndex(framesUsed)
+	as.handoffLock.Unlock()
 
 	// TODO: we should loop over devices here, matching devices to channels.
 	var wg sync.WaitGroup
@@ -1197,7 +1207,7 @@ func (as *AbacoSource) distributeData(buffersMsg AbacoBuffersType) *dataBlock {
 				rawData:         data,
 				framesPerSample: 1, // This will be changed later if decimating
 				framePeriod:     as.samplePeriod,
-				firstFrameIndex: as.nextFrameNum,
+				firstFrameIndex: firstFrameIndex,
 				firstTime:       firstTime,
 				signed:          true,
 				droppedFrames:   buffersMsg.droppedFrames,
@@ -1207,7 +1217,6 @@ func (as *AbacoSource) distributeData(buffersMsg AbacoBuffersType) *dataBlock {
 	}
 	wg.Wait()
 	block.nSamp = framesUsed
-	as.nextFrameNum += FrameIndex(framesUsed)
 	if as.heartbeats != nil {
 		pmb := float64(buffersMsg.totalBytes) / 1e6
 		hwmb := float64(buffersMsg.totalBytes-buffersMsg.droppedBytes) / 1e6
